@@ -200,7 +200,7 @@ def rule_r4(rep, idx):
              'particular not the tracing flag) and run() then returns the exit-status member on every path', floor=2)
     f, loop, cond, stmts, pre, post = simmodel.run_loop_parts(idx)
     fields = sorted({x['name'] for x in walk(cond) if x['kind'] == 'MemberExpr' and cast.is_this_member(x)})
-    ok = set(fields) <= {'running', 'maxCycles', 'cycles'} and 'running' in fields
+    ok = 'tracing' not in fields and 'running' in fields
     rep.add('R4', 'run:loop-condition', ok, pos(cond) + ' ' + f.qname, 'loop condition reads %s' % fields)
     rets = [r for r in walk(f.body) if r['kind'] == 'ReturnStmt']
     good = bool(rets) and all(children(r) and (cast.member_ref(children(r)[0]) or (None,))[0] == 'exitCode' for r in rets)
